@@ -169,6 +169,7 @@ class Scipy(AbstractIntegrator):
                         values=np.array([y2], dtype=float),
                     )
                 )
-            y1 = y2
+            # integ.integrate hands back the same buffer every time
+            y1 = np.array(y2, dtype=float)
             t += step_size
         return Result(NoSteadyState())
